@@ -598,6 +598,10 @@ def norm_index(eng, i, n, exc=True):
 
 
 def getitem(eng, v, k):
+    if isinstance(v, NT) and isinstance(k, str):
+        if k in v._names:
+            return v[v._names.index(k)]          # a record-like dict read by key
+        eng.maybe_raise(False, 'KeyError')
     if isinstance(v, PArr) and isinstance(k, tuple):
         e = v.at(*[_int(eng.num(x)) for x in k])                 # arr[a, b]: the pointwise formula at that index
         return wrap(TBool if z3.is_bool(e) else TReal, e)
